@@ -101,6 +101,7 @@ def run(data):
         except Exception as ex:  # noqa
             fails.append({"codec": "setup", "kind": "quantity", "object": qs, "what": str(ex)[:100]}); continue
         codecs = CODECS + [("sql-composite", lambda o: Quantity(*o.__composite_values__()))]
+        if qs.get("json_only"): codecs = [cc for cc in codecs if cc[0] == "json"]
         for name, f in codecs:
             counts[f"quantity:{name}"] = counts.get(f"quantity:{name}", 0) + 1
             case_ids.append(f"quantity:{name}:{type(q.magnitude).__name__}:{q.magnitude!r}:{C.oid(q.unit)}")
@@ -112,9 +113,9 @@ def run(data):
                 elif name in IDENTITY_CODECS and r.unit is not q.unit: bad = "unit is not the identical object"
                 elif not (r == q) and not (q.magnitude != q.magnitude): bad = "not equal to the original"
                 elif name in IDENTITY_CODECS and r.magnitude != q.magnitude and q.magnitude == q.magnitude: bad = "magnitude changed"
-                if bad: fails.append({"codec": name, "kind": "quantity", "object": describe(q), "got": describe(r), "what": bad, "spec": qs, "unit_text_ok": unit_text_ok(q.unit)})
+                if bad: fails.append({"codec": name, "kind": "quantity", "object": describe(q), "got": describe(r), "what": bad, "spec": qs, "unit_text_ok": unit_text_ok(q.unit), "unit_text": str(q.unit)})
             except Exception as ex:  # noqa
-                fails.append({"codec": name, "kind": "quantity", "object": describe(q), "what": "raised " + implib.errclass(ex) + ": " + str(ex)[:100], "spec": qs, "unit_text_ok": unit_text_ok(q.unit)})
+                fails.append({"codec": name, "kind": "quantity", "object": describe(q), "what": "raised " + implib.errclass(ex) + ": " + str(ex)[:100], "spec": qs, "unit_text_ok": unit_text_ok(q.unit), "unit_text": str(q.unit)})
     # a unit text that was deserialised once (prefix + symbol) and is later registered as the exact symbol of a new unit:
     # quantities of the new unit must still round-trip to the new unit (run last: it registers units)
     for i, (ps, us, dim) in enumerate(data.get("late", [])):
